@@ -388,14 +388,15 @@ where
     });
     let peak = heap_peak();
     let inner = world::uninstall();
-    let (trace, counters) = match inner {
-        Some(i) => (i.trace, i.counters),
-        None => (Vec::new(), BTreeMap::new()),
+    let (trace, counters, overflow) = match inner {
+        Some(i) => (i.trace, i.counters, i.trace_overflow),
+        None => (Vec::new(), BTreeMap::new(), false),
     };
     let panics = take_panics();
     let logs = take_logs();
     let (out, vtime_us, timed_out, main_panicked) = match result {
-        Ok((Some(v), t)) => (Some(v), t, false, false),
+        // a run whose trace overflowed is not judged (its hash would not identify it)
+        Ok((Some(v), t)) => (Some(v), t, overflow, false),
         Ok((None, t)) => (None, t, true, false),
         Err(_) => (None, 0, false, true),
     };
